@@ -187,6 +187,11 @@ def main():
         src = open(os.path.join(REPO, PKG, fn)).read()
         for desc, before, new in mutants_of(src):
             jobs.append((fn, desc, before, new))
+    if "--only-survivors-of" in sys.argv:
+        prev = sys.argv[sys.argv.index("--only-survivors-of") + 1]
+        keep = {(r["file"], r["mutation"]) for r in map(json.loads, open(prev))
+                if "survived" in r["verdict"]}
+        jobs = [j for j in jobs if (j[0], j[1]) in keep]
     if limit:
         step = max(1, len(jobs) // limit)
         jobs = jobs[::step][:limit]
